@@ -56,6 +56,9 @@ def gen_case(rnd, depth):
         p = ["and", p, ["is", rnd.choice(["null", "notNull"]), col("nz")]] if rnd.random() < 0.5 else \
             ["or", ["is", rnd.choice(["null", "notNull"]), col("nz")], p]
     q = select([["star"]], table("t"), wh=p)
+    if rnd.random() < 0.12:
+        # a predicate and its negation partition the rows — evaluated over the SAME table value within one statement
+        q = ["union", [], select([["star"]], table("t"), wh=p), select([["star"]], table("t"), wh=["not", p]), False, [], None, None, {}]
     # the same table with its integral numbers stored as another Go number kind (the engine accepts all of them)
     nk = rnd.choice(["int", "int64", "int32", "int16", "int8", "uint", "uint64", "uint32", "uint16", "uint8", "float32", "mixed"]) \
         if rnd.random() < 0.2 else None
